@@ -36,6 +36,8 @@ type Sim struct {
 	inl           *inlineState
 	pendingInline []pendingInline
 	reported      map[string]map[string]int
+	Store         mqtt.Hook // the storage hook of the current broker instance (if any)
+	Restarts      int
 }
 
 type SimOptions struct {
@@ -47,11 +49,34 @@ type SimOptions struct {
 	AuthDeny   func(string) bool
 	CheckStats bool // compare $SYS counters with actual state after every step (C38)
 	CheckFlush bool // compare OnPacketSent bytes with bytes on the wire after every step (C34)
+	StoreOpen  func() (mqtt.Hook, any)   // opens a fresh storage hook on the case's store (start and every restart)
+	WrapStore  func(mqtt.Hook) mqtt.Hook // optional wrapper around the storage hook (crash proxy)
+	AfterRestart func(s *Sim)            // called after a restart has loaded the store, before the history continues
 }
 
 func NewSim(cfg *Config, opt SimOptions) *Sim {
 	s := &Sim{Cfg: cfg, Opt: opt, M: NewModel(cfg)}
-	o := eng.Options{Inline: cfg.Inline, WriteBuf: cfg.WriteBuf, ExtraHooks: opt.ExtraHooks, FirstHooks: opt.FirstHooks, NoAuthHook: opt.NoAuthHook, AuthDeny: opt.AuthDeny, RecordBytes: opt.CheckFlush}
+	s.B = s.makeBroker()
+	for i, id := range opt.ClientIDs {
+		s.Slots = append(s.Slots, &Slot{Idx: i, ClientID: id, nextPID: 30000})
+	}
+	s.t0 = time.Now().Unix()
+	return s
+}
+
+// makeBroker builds a broker for this case's configuration (used at start and at every restart).
+func (s *Sim) makeBroker() *eng.Broker {
+	cfg, opt := s.Cfg, s.Opt
+	extra := append([]eng.HookSpec{}, opt.ExtraHooks...)
+	if opt.StoreOpen != nil {
+		h, hc := opt.StoreOpen()
+		if opt.WrapStore != nil {
+			h = opt.WrapStore(h)
+		}
+		s.Store = h
+		extra = append(extra, eng.HookSpec{Hook: h, Config: hc})
+	}
+	o := eng.Options{Inline: cfg.Inline, WriteBuf: cfg.WriteBuf, ExtraHooks: extra, FirstHooks: opt.FirstHooks, NoAuthHook: opt.NoAuthHook, AuthDeny: opt.AuthDeny, RecordBytes: opt.CheckFlush}
 	o.Caps = func(c *mqtt.Capabilities) {
 		c.MaximumQos = cfg.MaxQoS
 		if cfg.RetainAvailable {
@@ -87,15 +112,15 @@ func NewSim(cfg *Config, opt SimOptions) *Sim {
 	if cfg.Deny != nil {
 		o.ACL = func(id, topic string, write bool) bool { return !cfg.Denied(id, topic, write) }
 	}
-	s.B = eng.NewBroker(o)
-	for i, id := range opt.ClientIDs {
-		s.Slots = append(s.Slots, &Slot{Idx: i, ClientID: id, nextPID: 30000})
-	}
-	s.t0 = time.Now().Unix()
-	return s
+	return eng.NewBroker(o)
 }
 
-func (s *Sim) Close() { s.B.Shutdown() }
+func (s *Sim) Close() {
+	s.B.Shutdown()
+	if s.Store != nil {
+		_ = s.B.S.Close() // stops the storage hook (closes the database)
+	}
+}
 
 func (s *Sim) tr(format string, a ...any) {
 	if s.Opt.KeepTrace {
@@ -363,6 +388,9 @@ func (s *Sim) endStep() {
 				attrs["will_erased_risk"] = fmt.Sprint(e.Msg.WillErasedRisk)
 			}
 			m.flag(e.Rule, attrs, "slot %d (%s): expected %s not received by quiescence: %s", sl.Idx, sl.ClientID, rc.TypeNames[e.Kind], e.What)
+			if e.Attrs["nolocal_overlap_disagree"] == "true" && e.Out != nil && sl.Sess != nil {
+				sl.Sess.removeOut(e.Out) // flagged once (recorded finding); the broker did not queue it, so nothing is owed later
+			}
 		}
 		sl.Exp = keep
 	}
@@ -443,7 +471,9 @@ func (s *Sim) onBrokerPacket(sl *Slot, rp *eng.RxPacket) {
 			}
 		}
 		if !matched && (o == nil || !o.Pubrec) {
-			if p.Reason < 0x80 {
+			if sl.otherQ2[p.PacketID] || (sl.Sess != nil && sl.Sess.OtherQ2[p.PacketID]) {
+				// release of an untracked (empty payload / $SYS) QoS 2 delivery we acknowledged, possibly on an earlier connection
+			} else if p.Reason < 0x80 {
 				m.flag("C09/unexpected-pubrel", sl.taintAttrs(), "slot %d: PUBREL id %d without a PUBREC'd outbound message", sl.Idx, p.PacketID)
 			}
 		}
@@ -796,7 +826,17 @@ func (s *Sim) onBrokerPublish(sl *Slot, rp *eng.RxPacket) {
 		o.Sent = true
 		o.Deferred = false
 		o.PID = p.PacketID
-		o.Vars = []variant{{QoS: p.QoS}}
+		// a redelivery must look like the first transmission: same QoS and, on an MQTT 5 connection, the same subscription identifiers
+		nv := variant{QoS: p.QoS}
+		if sl.Ver == 5 {
+			for _, sp := range p.Props.All(rc.PSubscriptionID) {
+				nv.SubIDs = append(nv.SubIDs, int(sp.Num))
+			}
+			sort.Ints(nv.SubIDs)
+		} else if len(o.Vars) > 0 {
+			nv.SubIDs = o.Vars[0].SubIDs // not visible on this connection: keep what the model expects
+		}
+		o.Vars = []variant{nv}
 		sl.inflight[p.PacketID] = o
 		if sl.Hold {
 			k := byte(rc.PUBACK)
@@ -864,4 +904,4 @@ func (s *Sim) deliveredBefore(sl *Slot, msg *Msg) bool {
 	return false
 }
 
-func isGlobalOp(k string) bool { return strings.HasPrefix(k, "inline") || k == "tick" || k == "sys" }
+func isGlobalOp(k string) bool { return strings.HasPrefix(k, "inline") || k == "tick" || k == "sys" || k == "restart" }
